@@ -78,6 +78,9 @@ var atomKinds = []atomKind{
 	{"lessThanVacuous", map[string]any{"lessThanProperty": "ex.b%d"}, []any{}, []any{1, 3}, []any{2}, []any{2}},
 	{"inNumbersMulti", map[string]any{"in": []any{1, 2}}, []any{1, 2}, []any{2, 3}, nil, nil},
 	{"maxLengthVacuous", map[string]any{"maxLength": 3}, []any{}, []any{"abcd", "abc"}, nil, nil},
+	// index 45, 46 (usable in any polarity): regular expressions whose first / last character is a blank
+	{"patternTrailingBlank", map[string]any{"pattern": "z $"}, []any{"abz "}, []any{"abz"}, nil, nil},
+	{"patternLeadingBlank", map[string]any{"pattern": "^ [a-c]+$"}, []any{" abc"}, []any{"abc"}, nil, nil},
 }
 
 type logicNode struct {
@@ -229,6 +232,11 @@ func renderLogicProfileLevels(fs []logicFormula, kinds []int, spell int, level m
 	}
 	doc := map[string]any{"profile": "logic", "prefixes": map[string]any{"ex": exNS}, "validations": vals}
 	for l, ns := range names {
+		if level != nil {
+			// a level list may name validations that are not defined (removed, commented out): they are ignored, and
+			// they must not disturb the validations listed after them
+			ns = append(append([]any{"listed-but-not-defined"}, ns...), "also-not-defined")
+		}
 		doc[l] = ns
 	}
 	b, err := yaml.Marshal(doc)
